@@ -174,31 +174,6 @@ void h_send_memory(void)
   VERIF_CANARY();
 }
 
-#ifdef REGP_WIRE_FRAMING
-/* a chunk list of one or two chunks in every consumption state */
-void h_read_from_chunks(void)
-{
-  GHOST_HAVOC();
-  IN(size_t, in_chunks) IN(size_t, in_active) IN(size_t, in_n)
-  IN(size_t, in_size0) IN(size_t, in_used0) IN(size_t, in_off0)
-  IN(size_t, in_size1) IN(size_t, in_used1) IN(size_t, in_off1)
-  ASSUME((in_chunks == 1 || in_chunks == 2) && in_active <= in_chunks);
-  ASSUME(in_off0 <= in_used0 && in_used0 <= in_size0 && in_size0 <= 64);
-  ASSUME(in_off1 <= in_used1 && in_used1 <= in_size1 && in_size1 <= 64);
-  ASSUME(in_n <= 128);
-  IN_MEM(in_c0, in_size0)
-  IN_MEM(in_c1, in_size1)
-  IN_MEM(in_dst, in_n)
-  ByteBuffer *chunk = malloc(in_chunks * sizeof(ByteBuffer)); ASSUME(chunk != NULL);
-  chunk[0].data = in_c0; chunk[0].size = in_size0; chunk[0].used = in_used0; chunk[0].offset = in_off0;
-  if (in_chunks == 2) { chunk[1].data = in_c1; chunk[1].size = in_size1; chunk[1].used = in_used1; chunk[1].offset = in_off1; }
-  ByteChunks *c = malloc(sizeof(ByteChunks)); ASSUME(c != NULL);
-  c->chunks = in_chunks; c->active = in_active; c->chunk = chunk;
-  read_from_chunks(c, in_dst, in_n);
-  VERIF_CANARY();
-}
-#endif
-
 /* -------------------------------------------------------------- emitters */
 
 void h_regp_req_read8(void)
